@@ -22,9 +22,10 @@ class C10(Prop):
             "pages and carries a token, the final one says done, counts match contents, no call raises, and the chain ends "
             "within n+2 calls. non-trivial = a chain of >= 2 calls over a webentity that has a link-less page or >= 2 prefixes.")
     MODES = ("url", "url", "mixed")
-    LONG_BIAS = 0.1
+    LONG_BIAS = 0.2
+    BACKENDS = ("file", "file", "memory")
     WEIGHTS = {"page": 5, "pages": 3, "links": 5, "batch": 4, "again": 1, "create": 2, "delete": 1, "addprefix": 3,
-               "rmprefix": 1, "move": 1, "rule": 1, "unrule": 1, "reopen": 1}
+               "rmprefix": 1, "move": 1, "rule": 1, "unrule": 1, "reopen": 1, "clear": 1}
     QUICK = (30, 16)
     THOROUGH = (150, 36)
     ASSUMPTIONS = ["relational oracle: the unpaginated get_webentity_pagelinks of the same index is the reference (its own "
